@@ -560,6 +560,8 @@ func checkErrDiscipline(c *Ctx, rule string, f *FuncInfo, want func(id string) b
 			c.ok(rule, st.key, st.pos, st.msg)
 		case nbad[base] <= len(budget[base]):
 			c.ok(rule, st.key, st.pos, "accepted exception (site moved within the function): "+budget[base][0])
+		case movedFromCallers(p, f, base, exceptions) != "":
+			c.ok(rule, st.key, st.pos, "accepted exception (site moved into this helper of the listed function): "+movedFromCallers(p, f, base, exceptions))
 		default:
 			c.fail(rule, st.key, st.pos, st.msg)
 		}
@@ -829,4 +831,31 @@ func (p *Prog) goTargets() map[string]bool {
 		})
 	}
 	return p.goT
+}
+
+// movedFromCallers: f is an unexported function all of whose callers are listed in the exception table for the same
+// callee (base = "<f.ID>:<callee>"): the excepted statement was extracted into f. Returns the reason, or "".
+func movedFromCallers(p *Prog, f *FuncInfo, base string, exceptions map[string]string) string {
+	if ast.IsExported(f.Decl.Name.Name) {
+		return ""
+	}
+	callee := strings.TrimPrefix(base, f.ID+":")
+	cs := callersOf(p, f.ID)
+	if len(cs) == 0 {
+		return ""
+	}
+	why := ""
+	for _, s := range cs {
+		found := ""
+		for k, w := range exceptions {
+			if strings.HasPrefix(k, s.Fn.ID+":"+callee+"#") {
+				found = w
+			}
+		}
+		if found == "" {
+			return ""
+		}
+		why = found
+	}
+	return why
 }
